@@ -340,8 +340,12 @@ DoDbw(ev) ==
       cands == {s \in StepIds(g) : g.steps[s].outs = ev.outs}
       s == IF cands = {} THEN 0 ELSE CHOOSE x \in cands : TRUE
       expected == IF w.inv.adopt THEN CurRec(s).deps ELSE w.pend.deps
-      rec == [outs |-> ev.outs, deps |-> ev.deps,
-              sig |-> Sig(g, w.file, s, ev.deps), tok |-> ev.tok]
+      \* The mirrored log holds what SHOULD have been recorded (the report of the run just
+      \* finished; in restat mode the list that was loaded): a record with another list is flagged
+      \* here (rec-deps) and its consequences show up later as steps the rule calls dirty (C02).
+      deps2 == IF s # 0 /\ (w.inv.adopt \/ w.pend.s = s) THEN expected ELSE ev.deps
+      rec == [outs |-> ev.outs, deps |-> deps2,
+              sig |-> Sig(g, w.file, s, deps2), tok |-> ev.tok]
       v == Lbl({"C08"}, "rec-unknown-outs", s # 0)
            \cup (IF s = 0 THEN {} ELSE
                    Lbl({"C05", "C02"}, "rec-without-success", w.inv.adopt \/ w.pend.s = s)
